@@ -33,6 +33,7 @@ type Spec struct {
 	Pattern    []bool `json:"pattern,omitempty"`  // ShouldSave answers, cyclic
 	Chain      []int  `json:"chain,omitempty"`    // successive interruptions: stop at the c-th save of each session
 	Liveness   bool   `json:"liveness,omitempty"` // the pair is the "many messages, much incompressible data" shape: every compression format must offer checkpoints
+	Hold       bool   `json:"hold,omitempty"`     // checkpoints handed to Save are kept as objects and serialized when the session has ended
 }
 
 type saver struct {
@@ -65,6 +66,7 @@ type env struct {
 	snapAt          int    // >0: inside the snapAt-th Save of a session, copy out and stage to snapDir
 	snapDir         string // where
 	snapErr         error
+	hold            bool // checkpoints are kept as objects and gob-encoded only when the session has ended
 }
 
 func (e *env) reset() error {
@@ -93,6 +95,7 @@ func (e *env) session(ck []byte, stopAt int, should func(i int) bool) (*sessionR
 	res := &sessionResult{src: p.GetSourceContainer()}
 	n, asked := 0, 0
 	var encErr error
+	var held []*patcher.Checkpoint
 	p.SetSaveConsumer(&saver{
 		should: func() bool {
 			asked++
@@ -103,12 +106,17 @@ func (e *env) session(ck []byte, stopAt int, should func(i int) bool) (*sessionR
 		},
 		save: func(c *patcher.Checkpoint) (patcher.AfterSaveAction, error) {
 			n++
-			b, err := encodeCk(c)
-			if err != nil {
-				encErr = err
-				return patcher.AfterSaveStop, err
+			if e.hold {
+				held = append(held, c)
+				res.cks = append(res.cks, nil)
+			} else {
+				b, err := encodeCk(c)
+				if err != nil {
+					encErr = err
+					return patcher.AfterSaveStop, err
+				}
+				res.cks = append(res.cks, b)
 			}
-			res.cks = append(res.cks, b)
 			if n == e.snapAt && e.snapDir != "" {
 				os.RemoveAll(e.snapDir)
 				e.snapErr = copyTree(e.out, filepath.Join(e.snapDir, "out"))
@@ -143,6 +151,13 @@ func (e *env) session(ck []byte, stopAt int, should func(i int) bool) (*sessionR
 		}
 	}
 	err = p.Resume(c, tp, b)
+	for k, hc := range held {
+		eb, eerr := encodeCk(hc)
+		if eerr != nil && encErr == nil {
+			encErr = eerr
+		}
+		res.cks[k] = eb
+	}
 	if encErr != nil {
 		return nil, fmt.Errorf("checkpoint cannot be gob-encoded: %w", encErr)
 	}
@@ -294,7 +309,7 @@ func check(s Spec) h.Result {
 	if err != nil {
 		return h.Failf("cannot decode patch: %v", err)
 	}
-	e := &env{patch: patch, overlay: s.Overlay, old: od, out: filepath.Join(d, "out"), stage: filepath.Join(d, "stage"), oldTree: s.Pair.Old}
+	e := &env{patch: patch, overlay: s.Overlay, old: od, out: filepath.Join(d, "out"), stage: filepath.Join(d, "stage"), oldTree: s.Pair.Old, hold: s.Hold}
 	bowlName := "fresh"
 	if s.Overlay {
 		bowlName = "overlay"
@@ -622,6 +637,7 @@ var prop = h.Prop[Spec]{
 		s.Overlay = rapid.Bool().Draw(t, "overlay")
 		s.Seed = int64(rapid.IntRange(1, 1<<30).Draw(t, "seed"))
 		s.MaxResumes = 24
+		s.Hold = rapid.IntRange(0, 2).Draw(t, "hold-checkpoints") == 0
 		if rapid.IntRange(0, 2).Draw(t, "with-pattern") == 0 {
 			s.Pattern = rapid.SliceOfN(rapid.Bool(), 1, 6).Draw(t, "pattern")
 		}
